@@ -214,6 +214,8 @@ pub fn leaves_full() -> Vec<T> {
     T::List(vec![num(1), num(2), num(3)]),
     ctx(vec![("a", num(1)), ("b", num(2))]),
     T::List(vec![ctx(vec![("a", num(1))]), ctx(vec![("a", num(2)), ("b", num(3))])]),
+    // contexts that carry their own `item` entry (the filter treats them specially)
+    T::List(vec![ctx(vec![("item", num(1)), ("a", num(1))]), ctx(vec![("item", num(2)), ("a", num(2))])]),
   ]
 }
 
